@@ -5,7 +5,8 @@ import core
 from core import hx
 from runner import Case
 
-THEOREMS = []   # filled in below
+THEOREMS = ["C15.diff_spec", "C15.diff_marks", "C15.diff_nodes_only_diff", "C15.diff_nodes_all", "C15.diff_identical_none",
+            "C15.diff_identical_self", "C15.diff_no_other_change"]
 RULE = ("first tree: random shape (1-14 nodes; all shapes <=4 nodes in the enumerated part) labelled from the hostile "
         "alphabet b, bc, b.c, b(, x+, 'a b', c), *, [z], b$, ^a, a|b, \\d, a, ab (sibling names distinct, names that contain a "
         "character of the separator left out); attributes age (int) / tag (str) on ~60% of the nodes; second tree = "
@@ -402,7 +403,18 @@ def shrink(case):
         yield mk(strip(d["t1"]), strip(d["t2"]), d["sep"], d["only_diff"], d["attr_list"], case.tags)
 
 
-NOT_READY = True
-LEVEL_TEXT = ""
-LEVEL_NOTE = ""
-TECHNIQUE = ""
+NOT_READY = False
+LEVEL_TEXT = ("machine-checked (Lean 4), for all pairs of trees with the same root name over every name alphabet (names non-empty, "
+              "free of the one-character separator, not themselves ending in a mark, siblings distinct), every attribute list and "
+              "only_diff on/off: get_tree_diff as written (string-level rows, outer merge, per-component _add_suffix, rebuild by path "
+              "insertion, value pairs and (~) renames applied in reverse-sorted path order) returns exactly the specified tree - its "
+              "(path, attributes) rows are a permutation of the kept paths marked component-wise (diff_spec); a node ends in (-) iff "
+              "its path is only in the first tree, (+) iff only in the second, (~) iff common with a differing listed attribute, "
+              "carrying both values (diff_marks); with only_diff the marked nodes and their ancestors, otherwise every node of either "
+              "tree (diff_nodes_only_diff, diff_nodes_all); identical trees give None (diff_identical_none); stripping the marks "
+              "gives back exactly the kept paths, each once (diff_no_other_change)")
+LEVEL_NOTE = ("the model is tied to the code by differential testing through real pandas on generated tree pairs over the hostile "
+              "alphabet (b, bc, b.c, b(, x+, 'a b', c), *, [z], b$, ^a, a|b, \\d) and the separators / . \\ | ::; multi-character "
+              "separators are covered by the tie only; the row order of pandas' outer merge is not modelled (results are compared and "
+              "specified up to sibling order)")
+TECHNIQUE = "Lean 4 proof (string-level implementation model = component-level specification) + correspondence check against the real library"
